@@ -342,7 +342,35 @@ def multi_step_reads(f, name, seen=None, depth=0):
                     defs = [d for _, d in sy.defs_of_var(r[2])]
                     return bool(defs) and all(all(outside(x, depth + 1) for x in roots(strip_deep(d))) for d in defs)
                 return False
-            rts = roots(buf)
+            # a mutably borrowed local (`let mut res = *header; … res.as_mut()`) is storage of its own: the root is the
+            # local, not what it was initialised from
+            def storage_roots(t):
+                t = strip_deep(t)
+                if t[0] == "mvar":
+                    return [("var", t[1], t[2])]
+                if t[0] in ("param", "upvar", "var", "const", "cdef", "bytes"):
+                    return [t]
+                out_ = []
+                k_ = t[0]
+                subs = []
+                if k_ in ("field", "variant", "discr", "len", "cast", "subslice", "repeat"):
+                    subs = [t[1]]
+                elif k_ == "un":
+                    subs = [t[2]]
+                elif k_ == "index":
+                    subs = [t[1], t[2]]
+                elif k_ == "call":
+                    subs = list(t[2])
+                elif k_ == "bin":
+                    subs = [t[2], t[3]]
+                elif k_ == "agg":
+                    subs = [v for _, v in t[3]]
+                elif k_ == "closure":
+                    subs = list(t[2])
+                for x in subs:
+                    out_ += storage_roots(x)
+                return out_
+            rts = storage_roots(buf)
             bad_roots = [r for r in rts if not outside(r)]
             # the block that *creates* the read future lies on a cycle (the poll loop of a single await does not)
             in_loop = any(c.bb in comp for comp in b.cycles_sccs())
